@@ -163,13 +163,14 @@ def c08(tier):
 # --------------------------------------------------------------------------- #
 # whole-node helpers                                                            #
 # --------------------------------------------------------------------------- #
-NODE_DEFS = {'CO_TPDO_N': 2, 'CO_RPDO_N': 2, 'CO_VERIF_TMR_POOL_HOOK': None}
+NODE_DEFS = {'CO_TPDO_N': 2, 'CO_RPDO_N': 2, 'CO_EMCY_N': 4, 'CO_VERIF_TMR_POOL_HOOK': None}
 
 
 def node_unwind(N=None, extra=None, dom=16, strn=12):
     """loop bounds shared by whole-node harnesses (N = scaled SDO block size)"""
     u = {'CODictFind': 9, 'COTmrReset': 9, 'CoVerifTmrPool': 9, 'COTPdoMapClear': 17, 'COTPdoTrigObj': 17,
-         'COTPdoMapAdd': 17, 'COSdoInit': 3, 'COSdoCheck': 3, 'COObjTypeUserSDOAbort': 3, 'od_find': 80}
+         'COTPdoMapAdd': 17, 'COSdoInit': 3, 'COSdoCheck': 3, 'COObjTypeUserSDOAbort': 3, 'od_find': 80,
+         'CODictInit': 90, 'CODictObjInit': 90, 'COEmcyReset': 6, 'COEmcyInit': 9, 'COEmcyCnt': 9, 'COTPdoClear': 9, 'COTPdoInit': 9, 'CORPdoClear': 9, 'CORPdoInit': 9}
     if N is not None:
         bb = 7 * N
         u.update({'COSdoUploadSegmented': 9, 'COSdoDownloadSegmented': 9, 'COSdoDownloadBlock': 9, 'COSdoAckUploadBlock': 9,
@@ -209,22 +210,24 @@ def sdo_step_insts(tier):
     return out
 
 
-def sdo_xfer_inst(xf, tgt, N, pre=0, ptgt=6, dom=16, ubl=4, nseg=2, lose=0, bs=2, fill=0):
+def sdo_xfer_inst(xf, tgt, N, pre=0, ptgt=6, dom=16, ubl=4, nseg=2, lose=0, bs=2, fill=0, ak=(), bs2=None):
     defs = dict(NODE_DEFS)
     defs.update({'XF': xf, 'TGT': tgt, 'PRE': pre, 'PTGT': ptgt, 'CO_VERIF_SDO_BUF_SEG': N, 'OD_DOM_SIZE': dom, 'UBL': ubl,
                  'NSEG': nseg, 'LOSE': lose, 'BS': bs, 'FILL': fill})
-    name = 'sdo_xfer_x%d_%s_n%d_s%d%s%s%s%s' % (xf, SDO_TGT[tgt], N, nseg, ('f%d' % fill) if fill else '', ('_l%d' % lose) if xf == 3 else '', ('_b%d' % bs) if xf == 4 else '',
+    if xf == 4:
+        defs.update({'AK': '{' + ','.join(str(a) for a in (ak or (0,))) + '}', 'AKN': len(ak), 'BS2': bs2 if bs2 is not None else bs})
+    name = 'sdo_xfer_x%d_%s_n%d_s%d%s%s%s%s' % (xf, SDO_TGT[tgt], N, nseg, ('f%d' % fill) if fill else '', ('_l%d' % lose) if xf == 3 else '', ('_b%d%s%s' % (bs, ('to%d' % bs2) if bs2 not in (None, bs) else '', ('_a' + ''.join(str(a) for a in ak)) if ak else '')) if xf == 4 else '',
                                              ('_pre%d' % pre + ('_%s' % SDO_TGT[ptgt] if ptgt != 6 else '')) if pre else '')
     kinds = ['expedited download + read back', 'segmented download', 'segmented upload', 'block download', 'block upload with partial acknowledges']
     size = '1..4' if nseg == 0 else ('5..7' if nseg == 1 else '%d..%d' % (7 * (nseg - 1) + 1, 7 * nseg))
     if fill:
         size = str(fill if nseg == 0 else 7 * (nseg - 1) + fill)
     return Inst(name, 'sdo_xfer.c', defs, unwind=max(dom + 10, 7 * N + 2, 22), unwindset=node_unwind(N, dom=dom), objbits=10,
-                harness_only=['XF', 'TGT', 'PRE', 'PTGT', 'UBL', 'NSEG', 'LOSE', 'BS', 'FILL'], family='sdo_xfer', weight=3 if xf >= 3 else 1,
+                harness_only=['XF', 'TGT', 'PRE', 'PTGT', 'UBL', 'NSEG', 'LOSE', 'BS', 'FILL', 'AK', 'AKN', 'BS2'], family='sdo_xfer', weight=3 if xf >= 3 else 1,
                 bounds='%s of %s, block size N=%d, size %s bytes symbolic (%d segments), payload/contents/size-indication symbolic%s%s%s' % (
                     kinds[xf], SDO_TGT[tgt], N, size, nseg,
                     (', segment %d of every first try lost' % lose) if (xf == 3 and lose) else '',
-                    (', requested block size %d, acknowledge position and next block size symbolic, <= %d blocks' % (bs, ubl)) if xf == 4 else '',
+                    (', requested block size %d (then %s), partial acknowledges %s then complete ones' % (bs, bs2 if bs2 is not None else bs, list(ak))) if xf == 4 else '',
                     '' if not pre else ('; preceded by an arbitrary server state of phase %d (open on %s) and %s' % ((pre - 1) % 5, SDO_TGT[ptgt], 'a client abort' if pre <= 5 else 'NMT reset communication'))))
 
 
@@ -252,20 +255,38 @@ def c03(tier):
     out = []
     maxseg = 3 if tier == 'quick' else 5
     dom = 7 * maxseg
+    fills = (1, 4, 7) if tier == 'quick' else (1, 2, 3, 4, 5, 6, 7)
+    sizes = [(0, f) for f in (1, 4)] + [(1, f) for f in (5, 7)] + [(ns, f) for ns in range(2, maxseg + 1) for f in fills]
+    if tier != 'quick':
+        sizes = [(0, f) for f in (1, 2, 3, 4)] + [(1, f) for f in (5, 6, 7)] + [(ns, f) for ns in range(2, maxseg + 1) for f in fills]
     for t in (6, 7):
-        for ns in range(0, maxseg + 1):
+        for ns, f in sizes:
             if t == 7 and 7 * ns > 14:
                 continue
-            out.append(sdo_xfer_inst(2, t, 2, dom=dom, nseg=ns))
-    for N in ((2, 3) if tier == 'quick' else (2, 3, 4)):
+            out.append(sdo_xfer_inst(2, t, 2, dom=dom, nseg=ns, fill=f))
+        # one instance per size class with the size symbolic inside the class
+        for ns in range(0, 3):
+            out.append(sdo_xfer_inst(2, t, 2, dom=14, nseg=ns))
+    for N in ((2,) if tier == 'quick' else (2, 3, 4)):
         for t in (6, 7):
-            for ns in range(0, maxseg + 1):
+            for ns, f in sizes:
                 if t == 7 and 7 * ns > 14:
                     continue
-                for bs in (1, 2, 3, 127):
+                if tier != 'quick' and (N == 4 or t == 7) and f not in (1, 4, 7):
+                    continue
+                segs = max(ns, 1)
+                for bs, bs2 in ((1, 1), (2, 2), (127, 127), (1, 2), (2, 1), (3, 3), (3, 1)):
                     if bs in (2, 3) and bs > N:
                         continue
-                    out.append(sdo_xfer_inst(4, t, N, dom=dom, nseg=ns, bs=bs, ubl=4))
+                    ebs = min(bs, N)
+                    pats = [()] + [(a,) for a in range(ebs)] + ([(a, b) for a in range(ebs) for b in range(ebs)] if (tier != 'quick' or (segs >= 2 and f == 7)) else [])
+                    for ak in pats:
+                        if bs != bs2 and ak:
+                            continue
+                        if tier == 'quick' and t == 7 and (bs != 2 or len(ak) > 1):
+                            continue
+                        ubl = len(ak) + segs + 1
+                        out.append(sdo_xfer_inst(4, t, N, dom=dom, nseg=ns, bs=bs, bs2=bs2, ak=ak, ubl=ubl, fill=f))
     return out
 
 
@@ -273,10 +294,14 @@ def c05(tier):
     out = []
     for pre in range(1, 11):
         for xf, t in ((0, 2), (1, 6), (2, 6), (2, 7), (3, 6), (4, 6), (4, 7)):
-            out.append(sdo_xfer_inst(xf, t, 2, pre=pre, dom=14, ubl=3, nseg=2, bs=2, fill=3 if xf in (1, 3) else 0))
+            out.append(sdo_xfer_inst(xf, t, 2, pre=pre, dom=14, ubl=4, nseg=2, bs=2, fill=0 if xf == 0 else 3, ak=(1,) if xf == 4 else ()))
+        # transfers of at most 4 bytes on domain / string (stale offset of the earlier access)
+        out.append(sdo_xfer_inst(1, 6, 2, pre=pre, dom=14, nseg=0, fill=3))
+        out.append(sdo_xfer_inst(3, 6, 2, pre=pre, dom=14, nseg=0, fill=3))
+        out.append(sdo_xfer_inst(2, 6, 2, pre=pre, dom=14, nseg=0, fill=3))
         if (pre - 1) % 5 in (1, 4):
-            out.append(sdo_xfer_inst(2, 7, 2, pre=pre, ptgt=7, dom=14, nseg=0))
-            out.append(sdo_xfer_inst(4, 7, 2, pre=pre, ptgt=7, dom=14, ubl=3, nseg=0, bs=2))
+            out.append(sdo_xfer_inst(2, 7, 2, pre=pre, ptgt=7, dom=14, nseg=0, fill=3))
+            out.append(sdo_xfer_inst(4, 7, 2, pre=pre, ptgt=7, dom=14, ubl=3, nseg=0, bs=2, ak=(0,), fill=3))
     return out
 
 
